@@ -299,6 +299,52 @@ def _send_through(raws, snd, sched=None):
     return sock
 
 
+# ---------------------------------------------------------------- process history must not leak into a run
+# Many plans run in one worker process. Module-level mutable state of the codec (a cache of encodings, a scratch
+# buffer ...) would make a run depend on the runs before it, and a violation found that way would not replay in a
+# fresh interpreter. Every run therefore starts from the state the modules had when they were imported; state
+# carried from one message to the next INSIDE a run is what the family / concurrent cases look at.
+def _snapshot_module_state(mods):
+    snap = []
+    for m in mods:
+        for name, val in sorted(vars(m).items()):
+            if name.startswith("__"):
+                continue
+            if isinstance(val, dict):
+                snap.append((val, dict(val)))
+            elif isinstance(val, list):
+                snap.append((val, list(val)))
+            elif isinstance(val, set):
+                snap.append((val, set(val)))
+            elif isinstance(val, bytearray):
+                snap.append((val, bytes(val)))
+            elif callable(getattr(val, "cache_clear", None)):
+                snap.append((val, None))
+    return snap
+
+
+def _restore_module_state(snap):
+    for val, old in snap:
+        if old is None:
+            val.cache_clear()
+        elif isinstance(val, dict):
+            if val != old:
+                val.clear()
+                val.update(old)
+        elif isinstance(val, list):
+            if val != old:
+                val[:] = old
+        elif isinstance(val, set):
+            if val != old:
+                val.clear()
+                val.update(old)
+        elif isinstance(val, bytearray):
+            if val != old:
+                val[:] = old
+
+
+_MODULE_STATE = _snapshot_module_state((PR, SU))
+
 _CONC_CODES = None
 
 
@@ -421,7 +467,9 @@ class WireWorld(World):
             "probabilities, truncation offset, mutation list) or a sender-only input); distinct = distinct plan digest / "
             "distinct transport event digest; non-trivial = at least one transport fault or mutation fired or a size "
             "refusal was exercised")
-    ASSUMPTIONS = ["concurrent cases: pre-emption granularity is the source line inside SendingMessage.__init__, ReceivingMessage.__init__/add_payload/validate and recv_stub; MAX_MESSAGE_SIZE is left at the default there",
+    ASSUMPTIONS = ["every run starts from the import-time contents of the module-level containers / lru caches of Pyro5.protocol and "
+                   "Pyro5.socketutil (state carried between messages is examined inside one run, not across runs of a worker process)",
+                   "concurrent cases: pre-emption granularity is the source line inside SendingMessage.__init__, ReceivingMessage.__init__/add_payload/validate and recv_stub; MAX_MESSAGE_SIZE is left at the default there",
                    "equivalence of re-encoded messages is judged at the decoded level",
                    "only byte-format memoryview annotation values are generated",
                    "a caller-supplied FLAGS_COMPRESSED / FLAGS_CORR_ID bit is treated as 'managed by the codec' (10% of messages)",
@@ -672,7 +720,9 @@ class WireWorld(World):
         if r2 < 0.12:
             pass
         elif r2 < 0.45:       # clean delivery, fragmented
-            pass
+            if msgs[0].get("via", "sut") == "sut" and rng.random() < 0.35:
+                case["msgs"] = self._gen_family(rng, cfg, msgs[0])
+                case["fam"] = True
         elif r2 < 0.60:       # truncation
             j = rng.randrange(nm)
             case["cut"] = {"msg": j, "off": self._gen_off(rng, msgs[j]), "how": "eof" if rng.random() < 0.8 else "rst"}
@@ -688,6 +738,50 @@ class WireWorld(World):
         if case["mut"] or r2 < 0.12:
             case["tr"]["eof"] = True
         return case
+
+    def _gen_family(self, rng, cfg, base):
+        """2-5 further messages whose annotations are related to the first one's: identical, same contents as another
+        buffer type, same keys / lengths with other contents, values swapped between keys, or ONE dict object that
+        the caller keeps and changes between messages (a sender that remembers encodings must not mix them up)"""
+        import copy
+        lim = cfg["max"] or BIG
+        used = {k for k, _ in base["ann"]}
+        while len(base["ann"]) < 2:
+            base["ann"].append([self._key(rng, used), {"len": rng.randint(1, 6), "seed": rng.getrandbits(16), "mode": "text",
+                                                       "as": rng.choice(_AS_TYPES)}])
+        if rng.random() < 0.6:
+            base["ann"][0][1]["as"] = rng.choice(["bytearray", "mv_rw", "mv_rw_slice"])
+            if base["ann"][0][1]["len"] == 0:
+                base["ann"][0][1]["len"] = 3
+        asz = sum(8 + v["len"] for _, v in base["ann"])
+        if base["pay"]["len"] + asz > lim:
+            base["pay"]["len"] = max(0, lim - asz)
+        msgs = [base]
+        for _ in range(rng.randint(2, 5)):
+            m = copy.deepcopy(msgs[-1])
+            m.pop("reuse", None)
+            m["seq"] = (m["seq"] + 1) & 0xFFFF
+            how = rng.choice(["same", "retype", "retype", "recontent", "recontent", "swap", "reuse", "reuse", "reuse"])
+            if how == "retype":
+                for _, v in m["ann"]:
+                    v["as"] = rng.choice(_AS_TYPES)
+            elif how == "recontent":
+                for _, v in m["ann"]:
+                    if rng.random() < 0.7:
+                        v["seed"] = rng.getrandbits(16)
+                        v["mode"] = "rand"
+            elif how == "swap":
+                a, b = rng.sample(range(len(m["ann"])), 2)
+                m["ann"][a][1], m["ann"][b][1] = m["ann"][b][1], m["ann"][a][1]
+            elif how == "reuse":
+                m["reuse"] = len(msgs) - 1
+                v = m["ann"][rng.randrange(len(m["ann"]))][1]
+                v["seed"] = rng.getrandbits(16)
+                v["mode"] = "rand"
+                if rng.random() < 0.3:
+                    v["as"] = rng.choice(_AS_TYPES)
+            msgs.append(m)
+        return msgs
 
     @staticmethod
     def _gen_snd(rng):
@@ -837,6 +931,7 @@ class WireWorld(World):
         plan = ctx.plan
         cfg = plan["cfg"]
         self._info_done = False
+        _restore_module_state(_MODULE_STATE)
         for i, case in enumerate(plan["cases"]):
             # every case starts from the run configuration (cases must not leak into each other)
             config.COMPRESSION = bool(cfg.get("comp"))
@@ -1298,11 +1393,9 @@ class WireWorld(World):
     # ---------------------------------------------------------------- stream case
     def _build_msgs(self, ctx, i, msgs, cfg):
         raws, exps, specs, hostile = [], [], [], []
-        dicts, seen_idx = {}, []
-        for spec in msgs or []:
+        dicts = {}
+        for mi, spec in enumerate(msgs or []):
             via = spec.get("via", "sut")
-            if via != "sut":
-                seen_idx.append(0)
             if via == "sut":
                 ann_obj = None
                 if spec.get("reuse") is not None and spec["reuse"] in dicts:
@@ -1316,8 +1409,7 @@ class WireWorld(World):
                     ann_obj = {}
                     for k, v in spec.get("ann") or []:
                         ann_obj[k] = _ann_value(v)
-                dicts[len(seen_idx)] = ann_obj
-                seen_idx.append(1)
+                dicts[mi] = ann_obj
                 raw, exp = self._encode_sut(ctx, i, spec, cfg, ann_obj)
                 if raw is None:
                     continue
@@ -1390,6 +1482,8 @@ class WireWorld(World):
             o += len(r)
         sentinel = bytes.fromhex(case.get("sent") or "")
         S = b"".join(raws)
+        if case.get("fam"):
+            ctx.probe("annotation_family")
         ssock = None
         if case.get("snd") and case.get("mode") != "direct":
             # the messages travel through the real SocketConnection.send -> send_data first (blocking socket: sendall;
